@@ -1230,3 +1230,63 @@ func decodesRequest(f *ssa.Function) bool {
 	})
 	return found
 }
+
+// lockBalancedServer (R-lock-balanced, C11): every lock acquisition on server paths is released on all paths.
+func lockBalancedServer(c *Ctx, rule string) {
+	fns := serverPathFns(c)
+	leaks := append(lockLeaks(c, fns), mayLeaks(c, fns)...)
+	seen := map[string]bool{}
+	for _, l := range leaks {
+		k := l.key + " in " + fname(l.fn)
+		if seen[k] {
+			continue
+		}
+		seen[k] = true
+		c.R.Violate(rule, k, c.Pos(l.at.Pos()), sprintf("%s acquires %s (at %s) and can return (near %s) without releasing it: every later send that needs the lock — to this stream or its successor — blocks forever", fname(l.fn), l.key, c.Pos(l.at.Pos()), ipos(c, l.ret)))
+	}
+	nAcq := 0
+	for _, fn := range fns {
+		ir.EachInstr(fn, func(_ *ssa.BasicBlock, _ int, in ssa.Instruction) {
+			if op, ok := c.Locks().Classify(in); ok && op.Acquire {
+				nAcq++
+			}
+		})
+	}
+	if len(seen) == 0 {
+		c.R.Hold(rule, "every acquisition is released on all paths", "", sprintf("%d lock acquisitions on server paths examined", nAcq))
+	}
+	if nAcq < 15 {
+		c.R.Break("%s examined only %d acquisitions", rule, nAcq)
+	}
+}
+
+// listingSessionFree (R-session-independent, C18): what tools/list answers is the registered descriptors — the code that
+// serves a listing never reads data back from the session (a negotiated revision, a flag), so the same registration
+// lists the same schemas to every client and in every session mode.
+func listingSessionFree(c *Ctx, rule string) {
+	var roots []*ssa.Function
+	for _, rows := range c.MapLiteralDispatch() {
+		for _, r := range rows {
+			if strings.HasSuffix(r.Method, "/list") && r.Target != nil {
+				roots = append(roots, r.Target)
+			}
+		}
+	}
+	if len(roots) < 3 {
+		c.R.Break("%s: only %d listing handlers found in dispatch tables", rule, len(roots))
+		return
+	}
+	n := 0
+	for _, fn := range sortedFuncs(c.ReachSync(roots...)) {
+		ir.EachCall(fn, func(call ssa.CallInstruction) {
+			if ir.CallName(call) == "(mcp.Session).GetData" {
+				n++
+				c.R.Violate(rule, "session data read in "+fname(fn), c.Pos(call.Pos()),
+					sprintf("%s reads data back from the session while serving a listing: the descriptors a client is shown then depend on the session (a session without that entry — stateless mode, another transport — gets different schemas than were registered)", fname(fn)))
+			}
+		})
+	}
+	if n == 0 {
+		c.R.Hold(rule, "listing handlers never read session data", "", sprintf("no (Session).GetData in code reachable from the %d listing handlers", len(roots)))
+	}
+}
